@@ -62,6 +62,14 @@ def gen_cases(seed, tier):
             cases.append({"spec": sp, "rows": gen_geo.param_rows(rng, kk_), "k": kk_, "seed": int(rng.integers(0, 2 ** 31)),
                           "info": {"kind": "prim", "dim": 2, "dep": False, "relations": ["hole"], "desc": "Gh"}})
             continue
+        if len(cases) % 20 == 11:
+            # rectangles with collinear edges (corners of one operand on edges of the other): grid samples on both boundaries
+            for _ in range(400):
+                dom = gen_geo.gen_domain(rng, max_depth=1, allow=("bool",), dep=False, dim=2, k=int(rng.choice([0, 0, 2])))
+                if any(r.endswith(":aligned") for r in dom["info"]["relations"]) and dom["spec"].get("op") in ("isect", "cut", "isect", "union"):
+                    break
+            cases.append({"spec": dom["spec"], "rows": dom["rows"], "info": dom["info"], "k": dom["k"], "seed": int(rng.integers(0, 2 ** 31))})
+            continue
         if len(cases) % 9 == 4:
             dom = gen_geo.flip_parallelogram(rng)
             cases.append({"spec": dom["spec"], "rows": dom["rows"], "info": dom["info"], "k": dom["k"],
@@ -149,8 +157,13 @@ def run_case(case):
         envr = {pn: env[pn][idx] for pn in env}
         L = max(geo.char_length(node, envr, len(X)), float(np.abs(X).max()))
         okb, amb = bnode.member(X, envr, TOL * L, L)
-        onb = okb & ~amb
+        # rows near two leaf boundaries (crossings, corners of one operand on an edge of the other) are boundary points as
+        # well unless the operands abut (interior seam): their normals must be finite unit vectors, only the step test
+        # below leaves them out
+        abut_ = any("abut" in r for r in info.get("relations", []))
+        onb = okb & ~amb if abut_ else (okb | (amb & (np.abs(bnode.phi(X, envr)) <= TOL * L)))
         res["counters"]["samples_not_on_boundary"] = res["counters"].get("samples_not_on_boundary", 0) + int((~onb).sum())
+        res["counters"]["rows_on_two_leaf_boundaries"] = res["counters"].get("rows_on_two_leaf_boundaries", 0) + int((onb & amb).sum())
         if not onb.any():
             continue
         X, envr = X[onb], {pn: v[onb] for pn, v in envr.items()}
